@@ -671,3 +671,60 @@ def trace_validation(res: Result, work: Work, n_random=600, max_leaves=25):
     if usable:
         res.sample({"recorded_trace_of": usable[-1]["expr"], "events": len(usable[-1]["events"]), "last_event": usable[-1]["events"][-1]})
     return traces
+
+
+# ------------------------------------------------------------------ trace validation of the repository's OWN test suite
+def unit_test_suite_traces(res: Result, work: Work, which="rc"):
+    """runs the repository's tests with the recording plugin and lets TLC validate every recorded transformer run"""
+    import subprocess
+    import sys
+    from common import REPO, VERIF
+    out = work.path("suite-traces.ndjson")
+    env = dict(os.environ)
+    env["VERIF_TRACE_OUT"] = str(out)
+    env["PYTHONPATH"] = f"{REPO}/src:{VERIF}/harness"
+    p = subprocess.run([sys.executable, "-m", "pytest", "-q", "-p", "no:cacheprovider", "-p", "verif_pytest_plugin", "--timeout=900",
+                        "unittests"],
+                       cwd=str(REPO), env=env, capture_output=True, text=True)
+    res.coverage["repository_tests_run_under_tracing"] = (p.stdout.strip().splitlines() or ["?"])[-1]
+    if not out.exists():
+        return
+    import json as _json
+    rc_traces, fc_traces = [], []
+    skipped = 0
+    for line in open(out):
+        t = _json.loads(line)
+        if t["kind"] == "rc":
+            ev = t["events"]
+            asg = {}
+            ok = in_generator_domain(ev)
+            for e in ev:
+                if e["op"] == "leaf" and e["kind"] == "rc":
+                    if e["res"]["st"] == "N" or asg.get(e["key"], e["res"]["st"]) != e["res"]["st"]:
+                        ok = False           # outside the quantifier of C04-C07: a requirement constraint that is NEUTRAL
+                    asg[e["key"]] = e["res"]["st"]
+                if e["op"] == "leaf" and e["kind"] not in ("rc", "hint", "fc"):
+                    ok = False
+            if ok and ev:
+                rc_traces.append({"id": t["id"], "asg": [[k, v] for k, v in sorted(asg.items())] or [[0, "F"]], "events": ev})
+            else:
+                skipped += 1
+        else:
+            if all(e["op"] != "leaf" or e["res"]["has_msg"] == (not e["res"]["ok"]) for e in t["events"]):
+                fc_traces.append({"id": t["id"], "events": t["events"]})
+            else:
+                skipped += 1
+    res.coverage["suite_traces_outside_the_quantifier_skipped"] = skipped
+    batch, module, cfg = (rc_traces, "EvalTrace", "EvalTrace.cfg") if which == "rc" else (fc_traces, "FcEvalTrace", "FcEvalTrace.cfg")
+    if not batch:
+        return
+    t2, acc, diag = validate_traces(module, cfg, batch, work, tag="suite-" + which)
+    res.add_tlc(f"{module}: every transformer run recorded while the repository's own tests executed ({len(batch)} runs)", t2)
+    res.count("traces_validated_against_impl", len(batch))
+    res.coverage["repository_test_runs_validated"] = len(batch)
+    for t in batch:
+        if t["id"] not in acc:
+            at, exp = diag.get(t["id"], (0, ()))
+            ev = t["events"][at - 1] if 0 < at <= len(t["events"]) else None
+            res.violation(f"a transformer run recorded during the repository's tests is not a behaviour of {module}: event {at} {ev}; the spec computes {exp}",
+                          {"kind": "suite-trace", "events": t["events"], "event_index": at})
